@@ -27,6 +27,9 @@ func init() {
 		"go.m.sign":  goMSign,
 		"go.m.limit": goMLimit,
 		"go.m.modes": goMModes,
+		"m.bodyx":    exMBodyX,
+		"m.extn":     exMExtn,
+		"go.m.ext":   goMExt,
 	})})
 }
 
@@ -324,6 +327,7 @@ func exMDecode(a []string) string {
 	ver := wallet.Version(atoi(a[0]))
 	var sub, wid, net, wcb, seq, vu uint32
 	var q uint64
+	tail := ""
 	switch ver {
 	case wallet.V3R1, wallet.V3R2:
 		m, err := wallet.DecodeMessageV3(tableCell(a[1]))
@@ -351,8 +355,13 @@ func exMDecode(a []string) string {
 		switch m.SumType {
 		case "SignedExternal":
 			wid, vu, seq = m.SignedExternal.WalletId, m.SignedExternal.ValidUntil, m.SignedExternal.Seqno
+			tail = fmtExts(m.SignedExternal.ExtendedActions)
 		case "SignedInternal":
 			wid, vu, seq = m.SignedInternal.WalletId, m.SignedInternal.ValidUntil, m.SignedInternal.Seqno
+			tail = fmtExts(m.SignedInternal.ExtendedActions)
+		case "ExtensionAction":
+			q = m.ExtensionAction.QueryID
+			tail = fmtExts(m.ExtensionAction.ExtendedActions) + fmtXacts(m.ExtensionAction.Actions)
 		default:
 			return "unmodelled"
 		}
@@ -383,7 +392,7 @@ func exMDecode(a []string) string {
 	for _, r := range raws {
 		fmt.Fprintf(&sb, " %d:%s", r.Mode, hashOrNil(r.Message))
 	}
-	return sb.String()
+	return sb.String() + tail
 }
 
 // m.verify <ver> <msg> <pk> <verdict>: "ok 1|0 <digest> <sig>" with digest and signature extracted by position
@@ -779,6 +788,7 @@ func u32Choice(g *h.G) uint32 {
 func genC14(g *h.G) {
 	cx := &c14opts{g}
 	genPrim(g, "prim.sha256")
+	genExt(g)
 	nCases := g.Scale(40, 1000)
 	for _, ver := range sendVers {
 		vs := fmt.Sprint(int(ver))
